@@ -243,7 +243,10 @@ def check(case, ignore_regions=False) -> Outcome:
     expr, ev = res.expression, res.event
     if not isinstance(expr, Expression):
         return fail("non-expression-returned", type=str(type(expr)))
-    if mode == "conditional" and not ignore_regions and REGIONS["cond"] in regions:
+    if mode == "conditional" and not ignore_regions and REGIONS["cond"] in regions and feats & {"nonminimal-item", "plus-mark", "outcome-and-condition-share-a-variable"}:
+        # F29c, narrowed after bucketing ~2500 answered conditional queries with the umbrella switched off: every wrong
+        # answer had an item with a causally irrelevant subscript (Algorithm 3 looks values up by the un-minimised
+        # variable and loses the outcome), a '+' value, or an outcome and a condition on one variable
         out.excluded = REGIONS["cond"]
         return out
     labels.add("zero" if isinstance(expr, Zero) else "answered")
